@@ -81,3 +81,17 @@ package render
 //@ func NewSizer
 //@   serves C01
 //@   ensures fresh(result) && sizerOk(result) && result.outputSize == outputSize && fresh(result.memberSizes) && len(result.crsrs) == 0 && result.sink == ""
+
+// Reset: forget mappings, sink, menu items and cursors (C05, C07). The new
+// mapping table is a fresh map.
+//@ func (*Menu).Reset
+//@   requires m != nil
+//@   modifies m.menu, m.sink, m.canNext, m.canPrevious
+//@   ensures len(m.menu) == 0 && !m.sink && fresh(m.menu)
+//@ func (*Page).Reset
+//@   serves C05, C07
+//@   requires pg != nil
+//@   modifies pg.sink, pg.extra, pg.cacheMap, pg.menu.menu, pg.menu.sink, pg.menu.canNext, pg.menu.canPrevious, pg.sizer.crsrs
+//@   ensures @fresh pg.sink == nil && pg.extra == "" && pg.cacheMap != nil && fresh(pg.cacheMap) && all[string](k, !in(k, pg.cacheMap))
+//@   ensures @menu pg.menu != nil ==> len(pg.menu.menu) == 0 && !pg.menu.sink
+//@   ensures @cursors pg.sizer != nil ==> len(pg.sizer.crsrs) == 0
